@@ -236,6 +236,7 @@ class Session:
     def probe_prefs_decl(self, style, pf):
         """cssText / getCssText(separator) under non-default serializer preferences; the value texts under these
         preferences and `property.valid` are tabulated from the implementation (parameters of the model)"""
+        from cssutils.css import Property
         cu = self.cu
         props = style.getProperties(all=True)
         keys = [(p.name, p.propertyValue.cssText, p.priority) for p in props]
@@ -249,6 +250,9 @@ class Session:
                     valids = [bool(p.valid) for p in props] if pf['validOnly'] else None
                     text = style.cssText
                     text_sep = style.getCssText(sep)
+                    eff = style.getProperties()
+                    items = [(it.value, it.value.cssText, G.ref_property(it.value, pf)
+                              if isinstance(it.value, Property) else None) for it in style.seq]
         finally:
             cu.log.raiseExceptions = old
         self.emit(prefs_line(pf), 'ok', ('prefs', pf))
@@ -262,37 +266,37 @@ class Session:
         self.emit('ptext', enc(text), ('cssText under', pf))
         self.emit('psep %s' % enc(sep), enc(text_sep), ('getCssText(%r) under' % sep, pf))
         self.ctx.count('prefs-probe:decl')
-        self.oracle_text(style, pf, text, vts, props)
+        self.oracle_text(pf, text, text_sep, sep, items, eff)
 
-    def oracle_text(self, style, pf, text, vts, props):
-        """independent of the model: the rendering lists exactly the entries — every entry (keepAllProperties) or
-        the effective entry of every name (otherwise), in block order, each as `name … value [priority]`"""
-        import re
-        if pf['validOnly'] or not pf['lineSeparator'].strip('\n') == '' or pf['lineSeparator'] == '':
-            return
-        want = []
-        eff = style.getProperties()
-        for p, vt in zip(props, vts):
-            if not pf['keepAllProperties'] and not any(p is e for e in eff):
-                continue
-            nm = p.name if (pf['defaultPropertyName'] and not pf['keepAllProperties']) else p.literalname
-            want.append((nm, ' '.join(vt.split())))
-        nocomment = re.sub(r'/\*.*?\*/', '', text, flags=re.S)
-        got = []
-        for line in nocomment.split(pf['lineSeparator']):
-            line = line.strip()
-            if not line:
-                continue
-            if line.endswith(';'):
-                line = line[:-1]
-            name, _, rest = line.partition(':')
-            got.append((name.strip(), rest))
-        ok = len(got) == len(want) and all(g[0] == w[0] and ' '.join(g[1].split()).startswith(
-            ' '.join(re.sub(r'/\*.*?\*/', '', w[1], flags=re.S).split())) for g, w in zip(got, want))
-        if not ok and not any('\n' in vt or ';' in vt or ':' in vt for vt in vts):
-            self.ctx.violate('cssText lists exactly the entries (all, or the effective one per name) in block order',
-                             {'ops': G.show_ops(self.history), 'prefs': {k: v for k, v in pf.items() if v != G.PREF_DEFAULTS[k]}},
-                             {'cssText': text, 'entries': want, 'read': got})
+    def oracle_text(self, pf, text, text_sep, sep, items, eff):
+        """independent of the model — the statement of T10.8 on the implementation: cssText is the lines of the
+        written items joined by the separator; written = every item (keepAllProperties) or comments + the effective
+        entry of every name; a line = the property text + `;` unless it is the last item and omitLastSemicolon;
+        and the property text is `name:` spacer value [` ` priority]"""
+        from cssutils.css import Property
+        ctx = self.ctx
+        diff = {k: v for k, v in pf.items() if v != G.PREF_DEFAULTS[k]}
+        shown = [x for x in items if not isinstance(x[0], Property) or pf['keepAllProperties']
+                 or any(x[0] is e for e in eff)]
+        for val, t, ref in shown:
+            if ref is not None and ref != t:
+                ctx.violate('the text of a property is name, colon, value and priority as the preferences say',
+                            {'ops': G.show_ops(self.history), 'prefs': diff}, {'cssText': t, 'expected': ref})
+                return
+        for got, s_ in ((text, pf['lineSeparator']), (text_sep, sep)):
+            lines = []
+            for i, (val, t, ref) in enumerate(shown):
+                if isinstance(val, Property):
+                    if t:
+                        lines.append(t + ('' if (pf['omitLastSemicolon'] and i == len(shown) - 1) else ';'))
+                elif pf['keepComments']:
+                    lines.append(t)
+            if got != s_.join(lines):
+                ctx.violate('cssText lists exactly the entries (all, or the effective one per name) in block order, '
+                            'one line each, joined by the separator',
+                            {'ops': G.show_ops(self.history), 'prefs': diff, 'separator': s_},
+                            {'cssText': got, 'expected': s_.join(lines)})
+                return
 
     def call(self, f):
         try:
@@ -451,6 +455,10 @@ class Session:
                     for it in op[1]:
                         if it[0] == 'V':
                             pv = fr.val(it[2])
+                            if pv is None:
+                                # a value the stand-alone PropertyValue(text) refuses but the token path of the
+                                # block parser accepts (an identifier ending in an escaped blank before `;`)
+                                pv = G.value_via_block(cu, it[2])
                             idents = [b for a, b in fr.tok(it[1]) if a == 'IDENT']
                             words.append('I:%s' % enc(idents[0]))
                             words.append('V:%s:%s' % (enc(pv[0]), enc(pv[1])))
@@ -495,6 +503,21 @@ class Session:
                 self.emit('vt %s %s' % (enc(k), enc(t)), 'ok', 'vt')
         self.emit('vptext', enc(text), ('variables cssText under', pf))
         self.ctx.count('prefs-probe:vars')
+        # oracle (the statement of T10.8 on the implementation): up to layout white space the text is exactly the
+        # entries, `name:value;` each (last `;` as omitLastSemicolon says), comments in between
+        content, n = [], len(v.seq)
+        vi = 0
+        for i, it in enumerate(v.seq):
+            if it.type == 'var':
+                nm = G.py_normalize(it.value[0]) if pf['normalizedVarNames'] else it.value[0]
+                content.append(nm + ':' + vts[vi] + (';' if (i < n - 1 or not pf['omitLastSemicolon']) else ''))
+                vi += 1
+            elif pf['keepComments']:
+                content.append(getattr(it.value, 'cssText', it.value))
+        if G.strip_ws(text) != G.strip_ws(''.join(content)):
+            self.ctx.violate('variables block: up to layout white space cssText is exactly its entries',
+                             {'ops': self.history, 'prefs': {k: x for k, x in pf.items() if x != G.PREF_DEFAULTS[k]}},
+                             {'cssText': text, 'entries': content})
 
     def oracle_vars(self, v, op):
         """the serialisation lists exactly the variables the API reports (checked by reparsing the text)"""
